@@ -29,7 +29,10 @@ RULE = (
     "command is drained before it returns, same model. det: Engine DET, thread A subscribe(recorder) || thread B 1-2 emitting calls "
     "on a scheduler-less ReplaySubject that already holds 0-2 values, all schedules with <=1 preemption (<=2 for the three smallest programs in thorough); the "
     "subscriber's list must be the sequential model's list for SOME position of its subscribe (replay first, then later notifications, "
-    "no duplicate, no reordering). Distinct = distinct case JSON."
+    "no duplicate, no reordering). reentrant_default (and the clock=default configurations of reentrant_enum): the re-entrant emitter on the "
+    "scheduler-less subject, where delivery is synchronous: every subscriber must still see the values in the order in which the "
+    "subject accepted them (= the order it replays to a late subscriber). Histories also terminate through the public "
+    "Observer.fail(e). Distinct = distinct case JSON."
 )
 ASSUMPTIONS = [
     "window and clock are integer ticks on a TestScheduler; 'within the window' is inclusive (age == window is retained), as in ReplaySubject._trim",
@@ -78,8 +81,9 @@ _RE_ALPHABET = [
 
 def _re_enum(tier):
     if tier == "quick":
-        return enumerate_histories(_RE_ALPHABET, [{"buf": None, "win": None}, {"buf": 1, "win": 0}], 4)
-    cfgs = [{"buf": b, "win": w} for b in (None, 1) for w in (None, 0)]
+        cfgs = [{"buf": None, "win": None}, {"buf": 1, "win": 0}, {"buf": None, "win": None, "clock": "default"}]
+        return enumerate_histories(_RE_ALPHABET, cfgs, 4)
+    cfgs = [{"buf": b, "win": w} for b in (None, 1) for w in (None, 0)] + [{"buf": b, "win": None, "clock": "default"} for b in (None, 1)]
     return enumerate_histories(_RE_ALPHABET, cfgs, 6)
 
 
@@ -120,6 +124,7 @@ def checks(tier):
         Check("gen", _run, strategy=histories("replay", n), examples={"quick": 3200, "thorough": 16 * 20000}, shards={"quick": 8, "thorough": 16}),
         Check("reentrant_enum", _run, cases=_re_enum, shards={"quick": 8, "thorough": 16}, exhaustive=True),
         Check("reentrant", _run, strategy=histories("replay", n, reentrant=True), examples={"quick": 1600, "thorough": 16 * 8000}, shards={"quick": 8, "thorough": 16}),
+        Check("reentrant_default", _run, strategy=histories("replay", n, reentrant=True, clock="default"), examples={"quick": 800, "thorough": 16 * 8000}, shards={"quick": 8, "thorough": 16}),
         Check("hist_enum", _run, cases=_hist_enum, shards={"quick": 8, "thorough": 16}, exhaustive=True),
         Check("hist_clock", _run, strategy=histories("replay", n, clock="hist"), examples={"quick": 800, "thorough": 16 * 8000}, shards={"quick": 8, "thorough": 16}),
         Check("default_sched", _run, strategy=histories("replay", n, clock="default"), examples={"quick": 800, "thorough": 16 * 8000}, shards={"quick": 8, "thorough": 16}),
